@@ -716,6 +716,100 @@ Theorem needs_reachable n0 n : needs_beh -> needs_ok n0 -> reachable n0 n -> nee
 Proof. intros Hb H0 Hr. induction Hr; [assumption|]. eapply needs_step; eauto. Qed.
 End drained.
 
+Lemma chan_closed_mono n n' c ch : nstep n n' -> chans n !! c = Some ch -> cclosed ch = true ->
+  exists ch', chans n' !! c = Some ch' /\ cclosed ch' = true.
+Proof.
+  intros Hs Hc Hcl.
+  assert (Hupd : forall c0 ch1, (c0 = c -> cclosed ch1 = true) ->
+            exists ch', <[c0 := ch1]> (chans n) !! c = Some ch' /\ cclosed ch' = true).
+  { intros c0 ch1 H1. destruct (decide (c0 = c)) as [->|Hne].
+    - exists ch1. rewrite list_lookup_insert by (eapply lookup_lt_Some; eassumption). auto.
+    - exists ch. rewrite list_lookup_insert_ne by done. auto. }
+  destruct Hs as
+    [n i l0 alts c0 k ch0 v rest Hpi Hbl Ha Hch0 Hbuf0
+    |n i l0 alts c0 k ch0 Hpi Hbl Ha Hch0 Hbuf0 Hcl0
+    |n i l0 alts c0 v k ch0 Hpi Hbl Ha Hch0 Hcl0 Hlen
+    |n i l0 alts c0 v k ch0 Hpi Hbl Ha Hch0 Hcl0
+    |n i j0 li lj altsi altsj c0 v ki kj ch0 Hij Hpi Hpj Hbi Hai Hbj Haj Hch0 Hcap Hcl0
+    |n i l0 alts k Hpi Hbl Ha Hcan'
+    |n i l0 alts k Hpi Hbl Ha
+    |n i l0 c0 k ch0 Hpi Hbl Hch0 Hcl0
+    |n i l0 c0 k ch0 Hpi Hbl Hch0 Hcl0
+    |n i l0 ev k o Hpi Hbl
+    |n i l0 ids k Hpi Hbl Hall
+    |n]; simpl in *; eauto.
+  - apply Hupd. intros ->. simpl. congruence.
+  - apply Hupd. intros ->. exfalso. congruence.
+Qed.
+
+(* [did l c]: in local state l the goroutine has already closed channel c; then c is closed *)
+Section didclose.
+Variable did : L -> nat -> Prop.
+Definition did_beh : Prop := forall l,
+  match beh l with
+  | PSel alts => forall g k r c, (g, k) ∈ alts -> did (k r) c -> did l c
+  | PClose c k => forall c', did k c' -> c' = c \/ did l c'
+  | PCall _ k => forall o c, did (k o) c -> did l c
+  | PWait _ k => forall c, did k c -> did l c
+  | PEnd => True
+  end.
+Definition did_ok (n : net) : Prop :=
+  forall j l c, procs n !! j = Some l -> did l c -> exists ch, chans n !! c = Some ch /\ cclosed ch = true.
+
+Lemma did_step n n' : did_beh -> did_ok n -> nstep n n' -> did_ok n'.
+Proof.
+  intros Hb Hok Hs j l' c Hj Hd.
+  assert (Hold : forall l, procs n !! j = Some l -> did l c -> exists ch, chans n' !! c = Some ch /\ cclosed ch = true).
+  { intros l H1 H2. destruct (Hok j l c H1 H2) as (ch & H3 & H4). eapply chan_closed_mono; eauto. }
+  assert (Hins : forall i (x : L) l0, procs n !! i = Some l0 -> <[i := x]> (procs n) !! j = Some l' ->
+            (i = j /\ x = l') \/ (i <> j /\ procs n !! j = Some l')).
+  { intros i x l0 Hi Hl. destruct (decide (i = j)) as [->|Hne].
+    - left. rewrite list_lookup_insert in Hl by (eapply lookup_lt_Some; eassumption). split; congruence.
+    - right. rewrite list_lookup_insert_ne in Hl by done. auto. }
+  destruct Hs as
+    [n i l0 alts c0 k ch0 v rest Hpi Hbl Ha Hch0 Hbuf0
+    |n i l0 alts c0 k ch0 Hpi Hbl Ha Hch0 Hbuf0 Hcl0
+    |n i l0 alts c0 v k ch0 Hpi Hbl Ha Hch0 Hcl0 Hlen
+    |n i l0 alts c0 v k ch0 Hpi Hbl Ha Hch0 Hcl0
+    |n i j0 li lj altsi altsj c0 v ki kj ch0 Hij Hpi Hpj Hbi Hai Hbj Haj Hch0 Hcap Hcl0
+    |n i l0 alts k Hpi Hbl Ha Hcan0
+    |n i l0 alts k Hpi Hbl Ha
+    |n i l0 c0 k ch0 Hpi Hbl Hch0 Hcl0
+    |n i l0 c0 k ch0 Hpi Hbl Hch0 Hcl0
+    |n i l0 ev k o Hpi Hbl
+    |n i l0 ids k Hpi Hbl Hall
+    |n]; simpl in *; try (eapply Hold; eassumption).
+  - destruct (Hins _ _ _ Hpi Hj) as [[-> <-]|[_ Hj0]]; [|eapply Hold; eassumption].
+    pose proof (Hb l0) as H1. rewrite Hbl in H1. eapply Hold; [eassumption|]. eapply H1; eauto.
+  - destruct (Hins _ _ _ Hpi Hj) as [[-> <-]|[_ Hj0]]; [|eapply Hold; eassumption].
+    pose proof (Hb l0) as H1. rewrite Hbl in H1. eapply Hold; [eassumption|]. eapply H1; eauto.
+  - destruct (Hins _ _ _ Hpi Hj) as [[-> <-]|[_ Hj0]]; [|eapply Hold; eassumption].
+    pose proof (Hb l0) as H1. rewrite Hbl in H1. eapply Hold; [eassumption|]. eapply H1; eauto.
+  - destruct (decide (j0 = j)) as [->|Hnej].
+    + rewrite list_lookup_insert in Hj by (rewrite insert_length; eapply lookup_lt_Some; eassumption). injection Hj as <-.
+      pose proof (Hb lj) as H1. rewrite Hbj in H1. eapply Hold; [eassumption|]. eapply H1; eauto.
+    + rewrite list_lookup_insert_ne in Hj by done.
+      destruct (Hins _ _ _ Hpi Hj) as [[-> <-]|[_ Hj0]]; [|eapply Hold; eassumption].
+      pose proof (Hb li) as H1. rewrite Hbi in H1. eapply Hold; [eassumption|]. eapply H1; eauto.
+  - destruct (Hins _ _ _ Hpi Hj) as [[-> <-]|[_ Hj0]]; [|eapply Hold; eassumption].
+    pose proof (Hb l0) as H1. rewrite Hbl in H1. eapply Hold; [eassumption|]. eapply H1; eauto.
+  - destruct (Hins _ _ _ Hpi Hj) as [[-> <-]|[_ Hj0]]; [|eapply Hold; eassumption].
+    pose proof (Hb l0) as H1. rewrite Hbl in H1. eapply Hold; [eassumption|]. eapply H1; eauto.
+  - (* NClose *)
+    destruct (Hins _ _ _ Hpi Hj) as [[-> <-]|[_ Hj0]]; [|eapply Hold; eassumption].
+    pose proof (Hb l0) as H1. rewrite Hbl in H1. destruct (H1 c Hd) as [->|Hd'].
+    + eexists. split; [apply list_lookup_insert; eapply lookup_lt_Some; eassumption|reflexivity].
+    + eapply Hold; eassumption.
+  - destruct (Hins _ _ _ Hpi Hj) as [[-> <-]|[_ Hj0]]; [|eapply Hold; eassumption].
+    pose proof (Hb l0) as H1. rewrite Hbl in H1. eapply Hold; [eassumption|]. eapply H1; eauto.
+  - destruct (Hins _ _ _ Hpi Hj) as [[-> <-]|[_ Hj0]]; [|eapply Hold; eassumption].
+    pose proof (Hb l0) as H1. rewrite Hbl in H1. eapply Hold; [eassumption|]. eapply H1; eauto.
+Qed.
+
+Theorem did_reachable n0 n : did_beh -> did_ok n0 -> reachable n0 n -> did_ok n.
+Proof. intros Hb H0 Hr. induction Hr; [assumption|]. eapply did_step; eauto. Qed.
+End didclose.
+
 Section closers.
 Variable has_closed : L -> nat -> Prop.
 Definition closers_beh : Prop := forall l,
